@@ -118,6 +118,153 @@ def gen_body(rng):
 
 
 # ---------------------------------------------------------------------------------------------------------------
+# the log level the services run with, and bodies of a given length
+
+# `log.level` of the case: the dump middleware of the HTTP based services only runs at trace, other code paths write
+# their lines at debug / info
+LEVELS = ["trace", "trace", "trace", "debug", "debug", "info", "info", "warn", "error", "disabled", "disabled"]
+# the lengths every run covers for every kind of body: none, one byte, a few hundred bytes, a page, around 16 KiB (the
+# size of the buffers of bufio / io.Copy users and of a bounded dump), 64 KiB, and more than net/http drains after a
+# handler returned (256 KiB)
+SIZES = [0, 1, 300, 4096, 16383, 16384, 16385, 65536, 307200]
+SIZED_KINDS = ["json", "form", "yaml", "text", "json-bad"]
+FILL = "abcdefghijklmnopqrstuvwxyz0123456789ABCDEFGHIJKLMNOPQRSTUVWXYZ"
+BIG = 8192      # from here on a case reads the body in at most two templates (header size limits of the carriers)
+
+
+def fill(n, off=0):
+    """n bytes which no shift, swap or truncation leaves unchanged: the alphabet, cyclically, from position off"""
+    off %= len(FILL)
+    return (FILL * ((n + off) // len(FILL) + 2))[off:off + n]
+
+
+def sized_body(kind, size, off=0):
+    """(body of exactly `size` bytes, content type, oracle) — a single value `data` as long as needed, in the syntax of
+    the content type; below the length of the envelope: letters (which the decoders reject, except url.ParseQuery)"""
+    none = {"json": None, "form": None, "yaml": None}
+    if kind == "json":
+        if size < 11:
+            return "7" * size, "application/json", dict(none)
+        v = fill(size - 11, off)
+        return '{"data":"%s"}' % v, "application/json", dict(none, json=cj({"data": v}))
+    if kind == "json-bad":
+        # a JSON text cut off before its end: shown as the string it is
+        if size < 9:
+            return "{" * size, "application/json", dict(none)
+        return '{"data":"' + fill(size - 9, off), "application/json", dict(none)
+    if kind == "form":
+        ct = "application/x-www-form-urlencoded"
+        if size < 6:
+            b = fill(size, off)
+            return b, ct, dict(none, form=cj({b: [""]}) if b else None)
+        v = fill(size - 5, off)
+        return "data=" + v, ct, dict(none, form=cj({"data": [v]}))
+    if kind == "yaml":
+        if size < 9:
+            return fill(size, off), "application/yaml", dict(none)
+        v = fill(size - 8, off)
+        return 'data: "%s"' % v, "application/yaml", dict(none, yaml=cj({"data": v}))
+    return fill(size, off), "text/plain", dict(none)
+
+
+def set_body(case, body, ct, dec, sized=None):
+    """replace the body of the request of the case (with its Content-Type / Content-Length lines and oracle)"""
+    req = case["req"]
+    req["headers"] = [h for h in req["headers"] if h[0].lower() not in ("content-type", "content-length")]
+    if ct is not None:
+        req["headers"].append(["Content-Type", ct])
+    if body is not None:
+        req["headers"].append(["Content-Length", str(len(body.encode("latin-1")))])
+    req["body"] = body
+    case["dec"] = dec
+    req.pop("sized", None)
+    if sized is not None:
+        req["sized"] = sized
+    return case
+
+
+def expand(case):
+    """a case may name its body by kind and length (`req.sized`) instead of spelling it out (corpus files)"""
+    sz = case.get("req", {}).get("sized")
+    if sz and "body" not in case["req"]:
+        body, ct, dec = sized_body(sz["kind"], sz["size"], sz.get("off", 0))
+        set_body(case, body, ct, dec, sized=sz)
+    return case
+
+
+def resize(case, size):
+    """the case with its sized body at another length"""
+    sz = dict(case["req"]["sized"], size=size)
+    body, ct, dec = sized_body(sz["kind"], size, sz.get("off", 0))
+    return set_body(case, body, ct, dec, sized=sz)
+
+
+def limit_body_probes(case, keep=2):
+    """long bodies: at most `keep` templates echo the body (a header of the upstream request may hold 1 MiB, a gRPC
+    message 4 MiB)"""
+    pipes = [r["pipe"] for st in case["sets"] for r in st["rules"]]
+    if "default" in case:
+        pipes.append(case["default"]["pipe"])
+    for pipe in pipes:
+        n = 0      # per pipeline: one request runs one pipeline
+        for f in pipe["fin"]:
+            for it in f["items"]:
+                for i, p in enumerate(it["probes"]):
+                    if p["k"] == "body":
+                        n += 1
+                        if n > keep:
+                            it["probes"][i] = {"k": "method", "a": ""}
+    return case
+
+
+def random_size(rng):
+    r = rng.random()
+    if r < 0.3:
+        return rng.randrange(0, 600)
+    if r < 0.6:
+        return max(0, rng.choice([4096, 8192, 16384, 16384, 32768, 65536]) + rng.randrange(-2, 3))
+    if r < 0.85:
+        return int(600 * (70000 / 600) ** rng.random())
+    return rng.randrange(70000, 310000)
+
+
+def sized_case(rng, kind, size, level):
+    """one rule every request to /up/… reaches, whose pipeline echoes the body (template) next to the spy; the request
+    carries a body of the given kind and length; the services run at the given log level"""
+    rule = {"id": "r1", "bt": None, "esh": "", "scheme": "", "methods": [], "hosts": [],
+            "routes": [{"path": "/up/:id", "pp": []}],
+            "pipe": {"authz": [{"p": {"k": "capture", "a": "id"}, "eq": "42"}] if rng.random() < 0.5 else [],
+                     "fin": [{"t": "header", "if": None,
+                              "items": [{"name": "X-C13-A", "probes": [{"k": "body", "a": ""}]},
+                                        {"name": "X-C13-B", "probes": [{"k": "capture", "a": "id"},
+                                                                        {"k": "header", "a": "content-type"}]}]},
+                             {"t": "cookie", "if": None,
+                              "items": [{"name": "c13u-a", "probes": [{"k": "method", "a": ""}]}]}]}}
+    req = {"method": rng.choice(["POST", "POST", "PUT", "PATCH"]), "tls": rng.random() < 0.25,
+           "host": rng.choice(HOSTS), "path": "/up/42", "query": rng.choice(["", "a=b"]),
+           "headers": [["X-Foo", "1"]] if rng.random() < 0.5 else [], "body": None,
+           "envoy_body": rng.choice(["raw", "raw", "str"])}
+    case = {"fam": "entryview", "sets": [{"src": "s1", "rules": [rule]}], "req": req, "dec": {},
+            "spy": {"headers": ["Content-Type", "Host"], "cookies": []},
+            "respond": rng.choice(RESPONDS), "log": level}
+    off = rng.randrange(len(FILL))
+    body, ct, dec = sized_body(kind, size, off)
+    return set_body(case, body, ct, dec, sized={"kind": kind, "size": size, "off": off})
+
+
+def sized_cases(rng):
+    """the cases of every run: every kind of body at every length of SIZES at log level trace and at one other level"""
+    out = []
+    for kind in SIZED_KINDS:
+        for size in SIZES:
+            if kind == "json-bad" and size not in (16383, 16384, 65536):
+                continue
+            out.append(sized_case(rng, kind, size, "trace"))
+            out.append(sized_case(rng, kind, size, rng.choice(["debug", "info", "warn", "error", "disabled"])))
+    return out
+
+
+# ---------------------------------------------------------------------------------------------------------------
 
 def gen_probe(rng, cap_names, hdr_names, ck_names, cel=False):
     r = rng.random()
@@ -356,9 +503,11 @@ def gen_request(rng, rules, exprs, wellformed=True, raw=False):
     return req, dec
 
 
-def gen_case(rng, dup_p=0.12, wellformed=True, raw=False):
+def gen_case(rng, dup_p=0.12, wellformed=True, raw=False, sized_p=0.08):
     """wellformed: a logical request the theorems cover; raw (with wellformed): its path contains octets that may not
-    stand in a path; not wellformed: outside the hypotheses (two Cookie lines, hop headers)"""
+    stand in a path; not wellformed: outside the hypotheses (two Cookie lines, hop headers); sized_p: share of cases
+    whose body is one of `sized_body` with a random length (up to 300 KiB). Every case names the log level the
+    services run with."""
     exprs = gen_exprs(rng)
     rules = []
     for i in range(rng.choice([1, 2, 2, 3, 4])):
@@ -405,6 +554,15 @@ def gen_case(rng, dup_p=0.12, wellformed=True, raw=False):
     if rng.random() < 0.25:
         case["default"] = {"pipe": gen_pipe(rng, [], hdr_names, ck_names, req, dup_p)}
     case["respond"] = rng.choice(RESPONDS)
+    case["log"] = rng.choice(LEVELS)
+    if rng.random() < sized_p:
+        kind, size = rng.choice(SIZED_KINDS), random_size(rng)
+        off = rng.randrange(len(FILL))
+        body, ct, dec = sized_body(kind, size, off)
+        # the Content-Type / Content-Length lines go to the end; a second Content-Type line is dropped with the first
+        set_body(case, body, ct, dec, sized={"kind": kind, "size": size, "off": off})
+        if size >= BIG:
+            limit_body_probes(case)
     return case
 
 
